@@ -205,6 +205,7 @@ def main(tier):
     return run_property(
         PROP, "checks.c03", tier, "translation_validation",
         assumptions=[
+            "class-generic monotonicity on a concrete five-task problem (twin builds): rule X next to element Y in the roles plain / negated / alternative / implied admits nothing that X alone rejects (quick: 100 pairs, thorough: all pairs x roles)",
             "integer parameters (values, offsets, interval bounds, lengths) are arbitrary integers within the declared field constraints; counts n enumerated 0..m+1 (z3 pseudo-Boolean counts must be concrete)",
             "order-based rules (TasksContiguous) are stated for positive-length tasks only; zero-length ties are the ambiguous region (DESIGN Appendix A)",
             "ScheduleNTasksInTimeIntervals: listed intervals are well-formed and pairwise disjoint",
